@@ -3,7 +3,9 @@
 package slice
 
 // Contracts for the verification harness in /verif (see /verif/DESIGN.md).
-// This file is comment-only and is compiled only under the build tag "verif".
+// It is compiled only under the build tag "verif" and is comment-only except for one lemma function at the end
+// (govcChainBound: ordinary Go whose loop is the induction that turns the potential function proved for LIS/LNDS into
+// "no longer chain exists").
 //
 //@ spec norm(x int, m int) int := ite(x < 0, x + m, ite(x >= m, x - m, x))
 //@
@@ -386,3 +388,22 @@ package slice
 //@   ensures [C12] inputs: unchanged(elems(as)) && unchanged(elems(bs))
 //@   at exit: ghost wa = LCSFunc_wa
 //@   at exit: ghost wb = LCSFunc_wb
+//@
+// govcChainBound is a lemma function: for ANY assignment cl of lengths to positions that grows along every
+// admissible step (position j before x with vs[j] not above vs[x] has cl[j] < cl[x]) and is at least 1, any chain s
+// (ascending positions, values not descending) is at most as long as cl at its last position. The loop is the
+// induction. LNDSFunc proves exactly these hypotheses for its ghost cl, together with cl <= len(result); hence no
+// non-decreasing subsequence is longer than the result. With strict = true the same for LISFunc.
+//@ func govcChainBound
+//@   role cmp ord
+//@   requires [C12] lens: len(cl) == len(vs) && forall x int :: {cl[x]} 0 <= x && x < len(cl) ==> cl[x] >= 1
+//@   requires [C12] potential: forall j int, x int :: {cl[j], cl[x]} 0 <= j && j < x && x < len(vs) && (ord(cmp, vs[j], vs[x]) < 0 || (!strict && ord(cmp, vs[j], vs[x]) == 0)) ==> cl[j] < cl[x]
+//@   requires [C12] chain: (forall k int :: {s[k]} 0 <= k && k < len(s) ==> 0 <= s[k] && s[k] < len(vs)) && (forall a int, b int :: {s[a], s[b]} 0 <= a && b == a + 1 && b < len(s) ==> s[a] < s[b] && (ord(cmp, vs[s[a]], vs[s[b]]) < 0 || (!strict && ord(cmp, vs[s[a]], vs[s[b]]) == 0)))
+//@   ensures  [C12] bound: len(s) > 0 ==> len(s) <= cl[s[len(s) - 1]]
+//@   loop 1: invariant [C12] step: 1 <= k && (len(s) > 0 ==> k <= len(s) && cl[s[k - 1]] >= k)
+//@   loop 1: decreases len(s) - k
+
+func govcChainBound[T any](vs []T, cmp func(a, b T) int, cl []int, s []int, strict bool) {
+	for k := 1; k < len(s); k++ {
+	}
+}
